@@ -32,9 +32,11 @@ def variants(tier):
     v["next_available_name"] = [{"o2": NONE, "i2": NONE, "i1": i1, "t2": t2, "shadow": sh}
                                 for t2 in (6, 3, NONE) for sh in (0, 1) for i1 in (NONE, 1)]
     v["merge"] = [{"i1": NONE, "i2": NONE, "o2": o2, "t2": t2} for o2 in (NONE, 1, 2, 6) for t2 in (6, 3, NONE, 0)]
+    v["merge_inner"] = [{"i2": NONE, "o2": o2, "t2": t2} for o2 in (NONE, 3) for t2 in (NONE, 5)]
     if tier == "quick":
         # one round on 16 cores: the conditions around name generation and merging first
-        v = {"next_available_name": v["next_available_name"][:6], "merge": v["merge"][:4],
+        v = {"next_available_name": v["next_available_name"][:6], "merge": v["merge"][:2],
+             "merge_inner": v["merge_inner"][:2],
              "new_symbol": v["new_symbol"][:2], "add": v["add"][3:4], "rename_symbol": v["rename_symbol"][3:4],
              "lookup": v["lookup"][3:4], "find_or_create_tag": v["find_or_create_tag"][1:2]}
     return v
@@ -42,7 +44,7 @@ def variants(tier):
 
 def run_condition(args):
     path, line, timeout, name, vi = args
-    env = dict(os.environ, PYTHONPATH=core.VERIF, PSYCLONE_CONFIG=os.environ["PSYCLONE_CONFIG"])
+    env = dict(os.environ, PYTHONPATH=core.VERIF + os.pathsep + os.environ.get("PYTHONPATH", ""), PSYCLONE_CONFIG=os.environ["PSYCLONE_CONFIG"])
     cmd = [sys.executable, "-m", "crosshair", "check", "--report_all",
            "--per_condition_timeout", str(timeout), "--per_path_timeout", str(max(5, timeout // 4)),
            f"{path}:{line}"]
